@@ -107,8 +107,9 @@ fn c04_type31_one_block_free() {
     type31_one_block(false);
 }
 
-/// Same with the block at the canonical offset 36 and an ASCII (but otherwise free) name: the
-/// unknown-name path without the cost of lossy UTF-8 repair.
+/// The unknown-name / odd gate-count / odd word-size paths at an affordable cost: one block at the
+/// canonical offset 36 whose type, ASCII name (all 2^21), gate count, word size, scale and offset are
+/// free; every other byte zero.
 #[kani::proof]
 #[kani::unwind(12)]
 #[kani::stub(alloc::fmt::format, crate::stubs::fmt_format)]
@@ -118,15 +119,27 @@ fn c04_type31_one_block_ascii_name() {
 }
 
 fn type31_one_block(ascii: bool) {
-    let mut b: [u8; 76] = kani::any();
+    let mut b: [u8; 76] = if ascii { [0u8; 76] } else { kani::any() };
     b[30] = 0;
     b[31] = 1;
     if ascii {
-        b[32] = 0;
-        b[33] = 0;
-        b[34] = 0;
+        // concrete layout (pointer 36, zero header); free: block type, ASCII name (all 2^21),
+        // gate count, word size, scale and offset words
         b[35] = 36;
-        kani::assume(b[37] < 0x80 && b[38] < 0x80 && b[39] < 0x80);
+        let f: [u8; 15] = kani::any();
+        kani::assume(f[1] < 0x80 && f[2] < 0x80 && f[3] < 0x80);
+        b[36] = f[0];
+        b[37] = f[1];
+        b[38] = f[2];
+        b[39] = f[3];
+        b[44] = f[4];
+        b[45] = f[5]; // gates
+        b[55] = f[6]; // word size
+        let mut i = 0;
+        while i < 8 {
+            b[56 + i] = f[7 + i]; // scale, offset
+            i += 1;
+        }
     }
     let mut c = Cursor::new(&b[..]);
     let r = decode_digital_radar_data(&mut c);
